@@ -258,7 +258,7 @@ pub fn tape_from_bytes(raw: &[u8]) -> Vec<u64> {
 }
 
 fn blank() -> NCase {
-    NCase { code: String::new(), rip: CODE_BASE + 0x100, gpr: [0; 16], rflags: 0, xmm: [[0; 2]; 16], fs: 0, gs: 0, mem_seed: 0, patches: vec![], note: String::new(), layout: 0 }
+    NCase { code: String::new(), rip: CODE_BASE + 0x100, gpr: [0; 16], rflags: 0, xmm: [[0; 2]; 16], fs: 0, gs: 0, mem_seed: 0, patches: vec![], note: String::new(), layout: 0, steps: 0 }
 }
 
 fn mutate_any(t: &mut Tape, b: &[u8]) -> Vec<u8> {
